@@ -398,6 +398,7 @@ class Signal(object):
         """
 
         mot = self.values
+        self.clear_cache()  # before the values are edited in place: the edit may raise part-way
 
         for i in range(len(mot)):
             if i < width / 2:
@@ -410,8 +411,6 @@ class Signal(object):
                 cc1 = i - int(width / 2)
                 cc2 = i + int(width / 2) + 1
                 self._values[i] = np.mean(mot[cc1:cc2])
-
-        self.clear_cache()
 
 
 class AccSignal(Signal):
@@ -588,6 +587,7 @@ class AccSignal(Signal):
             acc = np.insert(acc, 0, velocity[0] / self.dt)
             self._values = acc
         else:
+            self.clear_cache()  # before the values are edited in place: the edit may raise part-way
             self._values -= roll
         self.clear_cache()
 
@@ -597,8 +597,8 @@ class AccSignal(Signal):
         end_disp = self.displacement[-1]
 
         acceleration_correction = 2 * end_disp / (self.dt * self.npts)
+        self.clear_cache()  # before the values are edited in place: the edit may raise part-way
         self._values -= acceleration_correction
-        self.clear_cache()
 
     def set_zero_residual_velocity(self, timezone=None):
         post_vel = self.velocity[-1]
@@ -616,6 +616,7 @@ class AccSignal(Signal):
                 nsteps = len(self.values) - si
         delta_acc = post_vel / self.dt / nsteps
         vals = self.values
+        self.clear_cache()  # before the values are edited in place: the edit may raise part-way
         vals[si:ei] -= delta_acc
         self.reset_values(vals)
 
@@ -632,6 +633,7 @@ class AccSignal(Signal):
         post_disp = self.displacement[-1]
         delta_acc = post_disp * 2 / ttime ** 2
         vals = self.values
+        self.clear_cache()  # before the values are edited in place: the edit may raise part-way
         vals[si:ei] -= delta_acc
         self.reset_values(vals)
         
@@ -669,6 +671,7 @@ class AccSignal(Signal):
             tincs -= tincs[0]
         delta_acc = 2 * a + 6 * b * tincs
         vals = self.values
+        self.clear_cache()  # before the values are edited in place: the edit may raise part-way
         vals[si:ei] -= delta_acc
         self.reset_values(vals)
 
